@@ -1223,7 +1223,8 @@ def _split(repo, col):
         if s_.kind == "mcall" and s_.key is not None and s_.key.name == "extend" and s_.value is not None and len(s_.value.args) == 2:
             x_ = s_.value.args[1]
             has_type = T.find(x_, lambda x: x.op == "item" and x.name == 1) is not None
-            is_parts = T.find(x_, lambda x: x.op == "call" and x.name == "_split_branch_equally") is not None    # the list of parts, not of types
+            # the list of parts itself (`branches.extend(parts)`) is not the list of types; `[type] * len(parts)` is
+            is_parts = x_.op not in ("binop", "list", "tuple") and T.find(x_, lambda x: x.op == "call" and x.name == "_split_branch_equally") is not None
             if has_type and not is_parts:
                 ts.append(_Ext(x_, s_.node))
     ok = bool(ts) and ts[0].value.op == "binop" and ts[0].value.name == "*"
